@@ -486,3 +486,36 @@ def run(ctx):
     rule_S1(ctx)
     rule_S2(ctx)
     rule_L1(ctx)
+
+
+# Self-test catalogue: one textual edit each, applied to a scratch copy (see selftest.py).
+_B = "phyclone/smc/kernels/base.py"
+_C = "phyclone/smc/samplers/conditional.py"
+_S = "phyclone/smc/samplers/base.py"
+_PG = "phyclone/mcmc/particle_gibbs.py"
+SELFTEST = [
+    {"name": "K1-drop-log_q-arm", "kind": "break", "rule": "K1", "file": _B, "old": "log_w = particle.log_p + particle.log_pdf - log_q", "new": "log_w = particle.log_p + particle.log_pdf"},
+    {"name": "K1-drop-parent-log_pdf", "kind": "break", "rule": "K1", "file": _B, "old": "particle.log_pdf - parent_particle.log_pdf - log_q", "new": "particle.log_pdf - log_q"},
+    {"name": "K2-swap-log_p_one", "kind": "break", "rule": "K2", "file": _S, "old": "return particle.log_w - particle.log_p + particle.log_p_one", "new": "return particle.log_w - particle.log_p_one + particle.log_p"},
+    {"name": "K2-off-by-one", "kind": "break", "rule": "K2", "file": _S, "old": "        if self.iteration < self.num_iterations - 1:\n            return particle.log_w", "new": "        if self.iteration < self.num_iterations - 2:\n            return particle.log_w"},
+    {"name": "K3-drop-weight-update", "kind": "break", "rule": "K3", "file": _C, "old": "            new_swarm.add_particle(parent_log_W + self._get_log_w(particle), particle)\n\n        self.swarm", "new": "            new_swarm.add_particle(parent_log_W, particle)\n\n        self.swarm"},
+    {"name": "K3-revert-F2", "kind": "break", "rule": "K3", "file": _C, "old": "self.swarm.add_particle(uniform_weight + self._get_log_w(particle), particle)\n\n        for _ in", "new": "self.swarm.add_particle(uniform_weight, particle)\n\n        for _ in"},
+    {"name": "R1-slice-mismatch", "kind": "break", "rule": "K3", "file": _C, "old": "zip(self.swarm.log_weights[1:], self.swarm.particles[1:])", "new": "zip(self.swarm.log_weights[1:], self.swarm.particles)"},
+    {"name": "R1-retained-wrong-step", "kind": "break", "rule": "K3", "file": _C, "old": "        particle = self.constrained_path[self.iteration + 1]\n\n        parent_log_W", "new": "        particle = self.constrained_path[self.iteration]\n\n        parent_log_W"},
+    {"name": "R1-resample-unnormalised", "kind": "break", "rule": "R1", "file": _C, "old": "self._rng.multinomial(self.num_particles - 1, self.swarm.weights)", "new": "self._rng.multinomial(self.num_particles - 1, np.exp(self.swarm.unnormalized_log_weights))"},
+    {"name": "R1-retained-dropped-on-resample", "kind": "break", "rule": "K3", "file": _C, "old": "            new_swarm.add_particle(log_uniform_weight, self.constrained_path[self.iteration + 1])\n", "new": "            pass\n"},
+    {"name": "S1-order-from-other-tree", "kind": "break", "rule": "S1", "file": _PG, "old": "data_sigma = RootPermutationDistribution.sample(tree, self._rng)\n\n        sampler = ConditionalSMCSampler(", "new": "data_sigma = RootPermutationDistribution.sample(tree.get_subtree(tree.root_node_name), self._rng)\n        data_sigma = sorted(data_sigma, key=lambda x: x.idx)\n\n        sampler = ConditionalSMCSampler("},
+    {"name": "benign-S1-copy", "kind": "benign", "file": _PG, "old": "data_sigma = RootPermutationDistribution.sample(tree, self._rng)\n\n        sampler = ConditionalSMCSampler(\n            tree,", "new": "data_sigma = RootPermutationDistribution.sample(tree, self._rng)\n\n        sampler = ConditionalSMCSampler(\n            tree.copy(),"},
+    {"name": "S2-unnormalised-final-draw", "kind": "break", "rule": "S2", "file": _PG, "old": "particle_idx = discrete_rvs(swarm.weights, self._rng)", "new": "particle_idx = discrete_rvs(swarm.unnormalized_log_weights, self._rng)"},
+    {"name": "S2-index-mismatch", "kind": "break", "rule": "S2", "file": _PG, "old": "particle = swarm.particles[particle_idx]", "new": "particle = swarm.particles[particle_idx - 1]"},
+    {"name": "W1-revert-F1", "kind": "break", "rule": "W1", "file": "phyclone/run.py", "old": ", perm_dist=RootPermutationDistribution()\n", "new": "\n"},
+    {"name": "W2-second-density-object", "kind": "break", "rule": "W2", "file": "phyclone/run.py", "old": "dp_sampler = DataPointSampler(tree_dist, rng", "new": "dp_sampler = DataPointSampler(TreeJointDistribution(FSCRPDistribution(1.0)), rng"},
+    {"name": "W3-holder-ignores-perm", "kind": "break", "rule": "W3", "file": "phyclone/smc/swarm/tree_holder.py", "old": "            self.log_pdf = self._perm_dist.log_pdf(tree)", "new": "            self.log_pdf = 0.0"},
+    {"name": "W3-kernel-drops-perm", "kind": "break", "rule": "W3", "file": "phyclone/smc/kernels/semi_adapted.py", "old": "        super().__init__(tree_dist, rng, perm_dist=perm_dist)\n\n        self.log_half", "new": "        super().__init__(tree_dist, rng)\n\n        self.log_half"},
+    {"name": "R2-path-logq-from-other-tree", "kind": "break", "rule": "R2", "file": _C, "old": "log_q = proposal_dist.log_p(new_tree_holder)", "new": "log_q = proposal_dist.log_p(TreeHolder(tree, tree_dist, perm_dist))"},
+    {"name": "L1-skip-point", "kind": "break", "rule": "L1", "file": _S, "old": "            self.iteration += 1\n\n        return self.swarm", "new": "            self.iteration += 2\n\n        return self.swarm"},
+    {"name": "benign-rename-local", "kind": "benign", "file": _B, "old": "        particle.log_w = log_w\n        return particle", "new": "        lw = log_w\n        particle.log_w = lw\n        return particle"},
+    {"name": "benign-hoist-get_log_w", "kind": "benign", "file": _C, "old": "            new_swarm.add_particle(parent_log_W + self._get_log_w(particle), particle)\n\n        self.swarm", "new": "            inc = self._get_log_w(particle)\n            new_swarm.add_particle(inc + parent_log_W, particle)\n\n        self.swarm"},
+    {"name": "benign-flatten-create_particle", "kind": "benign", "file": _B, "old": "        if self.perm_dist is None:\n            if parent_particle is None:\n                log_w = particle.log_p - log_q\n\n            else:\n                log_w = particle.log_p - parent_particle.log_p - log_q\n", "new": "        if self.perm_dist is None and parent_particle is None:\n            log_w = particle.log_p - log_q\n        elif self.perm_dist is None:\n            log_w = -log_q - parent_particle.log_p + particle.log_p\n"},
+    {"name": "benign-resample-count-N", "kind": "benign", "file": _C, "old": "self._rng.multinomial(self.num_particles - 1, self.swarm.weights)", "new": "self._rng.multinomial(self.num_particles, self.swarm.weights)"},
+]
